@@ -185,25 +185,31 @@ Section Model.
   }.
 
   (* everything after the loop: final enlargement, evidence, forced checkpoint *)
+  Definition set_nmut (h : hist) (nm : nat) : hist :=
+    {| h_beta := h_beta h; h_eff_target := h_eff_target h; h_ess := h_ess h;
+       h_ess_target := h_ess_target h; h_ratio := h_ratio h; h_ratio_var := h_ratio_var h;
+       h_pops := h_pops h; h_nmut := nm |}.
+
+  Definition enlarge (o : opts) (st : state) : P * G * nat :=
+    match n_final o with
+    | Some n =>
+      if Nat.eqb (psize (s_pop st)) n then (s_pop st, s_g st, h_nmut (s_hist st))
+      else let '(p1, g1) := resample (s_g st) (s_pop st) (one N) (Some n) in
+           let '(p2, g2) := mutate_o g1 p1 (one N) true in (p2, g2, S (h_nmut (s_hist st)))
+    | None => (s_pop st, s_g st, h_nmut (s_hist st))
+    end.
+
+  Definition finish_state (o : opts) (st : state) : state :=
+    let '(p, g, nm) := enlarge o st in
+    {| s_pop := p; s_beta := s_beta st; s_iter := s_iter st; s_min_step := s_min_step st;
+       s_hist := set_nmut (s_hist st) nm; s_g := g |}.
+
   Definition finish (o : opts) (st : state) : output * list ckpt :=
-    let '(p, g, nm) :=
-      match n_final o with
-      | Some n =>
-        if Nat.eqb (psize (s_pop st)) n then (s_pop st, s_g st, h_nmut (s_hist st))
-        else let '(p1, g1) := resample (s_g st) (s_pop st) (one N) (Some n) in
-             let '(p2, g2) := mutate_o g1 p1 (one N) true in (p2, g2, S (h_nmut (s_hist st)))
-      | None => (s_pop st, s_g st, h_nmut (s_hist st))
-      end in
-    let h := s_hist st in
-    let h' := {| h_beta := h_beta h; h_eff_target := h_eff_target h; h_ess := h_ess h;
-                 h_ess_target := h_ess_target h; h_ratio := h_ratio h; h_ratio_var := h_ratio_var h;
-                 h_pops := h_pops h; h_nmut := nm |} in
-    let le := fsum (h_ratio h) in
-    let lee := nsqrt N (fsum (h_ratio_var h)) in
-    let st' := {| s_pop := p; s_beta := s_beta st; s_iter := s_iter st; s_min_step := s_min_step st;
-                  s_hist := h'; s_g := g |} in
-    ({| o_pop := p; o_log_evidence := le; o_log_evidence_error := lee; o_hist := h'; o_g := g;
-        o_iter := s_iter st |},
+    let st' := finish_state o st in
+    let le := fsum (h_ratio (s_hist st')) in
+    let lee := nsqrt N (fsum (h_ratio_var (s_hist st'))) in
+    ({| o_pop := s_pop st'; o_log_evidence := le; o_log_evidence_error := lee; o_hist := s_hist st';
+        o_g := s_g st'; o_iter := s_iter st' |},
      maybe_checkpoint o true (Some (le, lee)) st').
 
   (* fresh run: population p0 drawn (draw_initial_samples) with generator state g0 afterwards *)
